@@ -51,9 +51,9 @@ func init() { shed.Register(c28Driver, shedldb.Driver{}) }
 
 // ---- identities: real key-derived overlays with signed underlay records ----
 
-const c28Letters = "ABCDEX" // X = a node that is not part of the network (unreachable target)
+const c28Letters = "ABCDEFX" // X = a node that is not part of the network (unreachable target)
 
-const c28X = 5 // index of X
+const c28X = 6 // index of X
 
 type c28Ident struct {
 	overlay boson.Address
@@ -153,6 +153,11 @@ var c28Topos = []c28Topo{
 	// forwarded back to a node that is already on its path (B and C are each other's pending
 	// requester: B gets [E,D,B,C] from C), i.e. where onRouteResp's self-in-path discard matters.
 	{"kite5", 5, [][2]int{{0, 1}, {0, 2}, {1, 2}, {1, 3}, {2, 3}, {3, 4}}},
+	// trees for two discoveries of the same target that merge at an intermediate node and
+	// reach it over chains of different length:
+	// tee5: A-B-C-D with E hanging on C;  tee6: A-B-C-D-E with F hanging on D.
+	{"tee5", 5, [][2]int{{0, 1}, {1, 2}, {2, 3}, {4, 2}}},
+	{"tee6", 6, [][2]int{{0, 1}, {1, 2}, {2, 3}, {3, 4}, {5, 3}}},
 }
 
 // one kademlia per node and topology, shared (read-only) by all executions of
@@ -379,9 +384,11 @@ func c28CheckPath(x *mc.X, topo c28Topo, items [][]byte, recorder int, maxTTL in
 		if !topo.adj(idx[len(idx)-1], recorder) {
 			x.Fail("path-last-hop-not-neighbour-of-recorder", "%s: node %c recorded path %s whose last hop is not its neighbour", where, c28Letters[recorder], c28Path(items))
 		}
-		// weakest reading of "no longer than the hop limit": hops inside the path (items-1) <= MaxTTL
-		if len(items)-1 > maxTTL {
-			x.Fail("path-longer-than-hop-limit", "%s: node %c recorded path %s with %d hops, hop limit %d", where, c28Letters[recorder], c28Path(items), len(items)-1, maxTTL)
+		// "no longer than the hop limit": a path of k items recorded at a node is a route of k
+		// hops from that node to the path's origin (k-1 inside the path + the link to its
+		// last hop), so k <= MaxTTL - the convention of every length check in route.go/table.go.
+		if len(items) > maxTTL {
+			x.Fail("path-longer-than-hop-limit", "%s: node %c recorded path %s: %d nodes = %d hops from %c, hop limit %d", where, c28Letters[recorder], c28Path(items), len(items), len(items), c28Letters[recorder], maxTTL)
 		}
 	}
 }
@@ -443,6 +450,7 @@ type c28Scenario struct {
 	target    int // index into c28Idents; 4 = X (unreachable)
 	maxTTL    int32
 	noDrops   bool // quick tier, 5-node scenario: delivery orders only, no message loss
+	second    int  // a second node that starts a discovery for the same target at any point of the run (-1: none)
 }
 
 // quick tier: one representative (initiator, target) pair per orbit of the
@@ -471,16 +479,41 @@ func c28Scenarios(thorough bool) []c28Scenario {
 				continue // quick tier: the by far largest topology only with MaxTTL 2 (and 3 for a reachable target)
 			}
 			// alpha >= max degree: getNeighbor never has to pick a random subset
-			out = append(out, c28Scenario{ti, 3, i, target, ttl, !thorough && t.name == "kite5"})
+			out = append(out, c28Scenario{ti, 3, i, target, ttl, !thorough && t.name == "kite5", -1})
 			// alpha = 1 only where every node has at most one candidate anyway
 			// (a line, initiator at an end): still deterministic, and the
 			// route lists are capped at one route.
 			if strings.HasPrefix(t.name, "line") && t.degree(i) == 1 {
-				out = append(out, c28Scenario{ti, 1, i, target, ttl, false})
+				out = append(out, c28Scenario{ti, 1, i, target, ttl, false, -1})
 			}
 		}
 	}
+	// two discoveries for one target ("first second target", MaxTTLs): the second request is
+	// issued at any point of the run. Pending entries are keyed by the target only, so the
+	// single response also travels back along the other, possibly longer, request chain.
+	two := map[string][]string{
+		"line4": {"ABD 2", "BAD 2", "ABD 3", "BAD 3"},
+	}
+	if thorough {
+		two = map[string][]string{
+			"line3":     {"ABC 1", "BAC 1", "ABC 2", "BAC 2", "ACB 2", "ABX 2"},
+			"triangle3": {"ABC 2", "ABX 2"},
+			"line4":     {"ABD 1", "BAD 1", "ABD 2", "BAD 2", "ABD 3", "BAD 3", "ABD 10", "ACD 2", "CAD 2", "ADC 2", "ADB 2", "BCD 2", "ADC 3", "ABX 2", "ADX 3"},
+			"star4":     {"BCD 2", "BCA 2", "BAC 2", "ABC 2", "BCX 2"},
+			"cycle4":    {"ABC 2", "ACB 2", "ABD 2", "ABC 3", "BDC 3"},
+			"tee5":      {"AED 2", "EAD 2", "AED 3", "EAD 3", "ADE 2", "DAE 3"},
+			"tee6":      {"AFE 3", "FAE 3"},
+		}
+	}
 	for ti, t := range c28Topos {
+		for _, spec := range two[t.name] {
+			var ttl int
+			fmt.Sscanf(spec[4:], "%d", &ttl)
+			out = append(out, c28Scenario{ti, 3, strings.IndexByte(c28Letters, spec[0]), strings.IndexByte(c28Letters, spec[2]), int32(ttl), false, strings.IndexByte(c28Letters, spec[1])})
+		}
+		if strings.HasPrefix(t.name, "tee") {
+			continue // only used with two initiators
+		}
 		if !thorough {
 			for _, p := range c28QuickPairs[t.name] {
 				add(ti, strings.IndexByte(c28Letters, p[0]), strings.IndexByte(c28Letters, p[1]))
@@ -526,6 +559,9 @@ func TestVerifC28(t *testing.T) {
 		nm := fmt.Sprintf("%s/alpha%d/ttl%d/%c->%c", c28Topos[s.topo].name, s.alpha, s.maxTTL, c28Letters[s.initiator], c28Letters[s.target])
 		if s.noDrops {
 			nm += "/no-drops"
+		}
+		if s.second >= 0 {
+			nm += fmt.Sprintf("/second-initiator-%c", c28Letters[s.second])
 		}
 		scenNames = append(scenNames, nm)
 	}
@@ -607,14 +643,24 @@ func TestVerifC28(t *testing.T) {
 			}
 
 			// the request FindRoute issues (without its blocking wait)
-			ini := nodes[sc.initiator].svc
-			forward := ini.getNeighbor(target, NeighborAlpha, target)
-			if len(forward) > int(sc.alpha) {
-				x.Broken("initiator picked a random subset")
+			kick := func(node int) chan struct{} {
+				svc := nodes[node].svc
+				forward := svc.getNeighbor(target, NeighborAlpha, target)
+				if len(forward) > int(sc.alpha) {
+					x.Broken("initiator picked a random subset")
+				}
+				ch := make(chan struct{}, len(forward))
+				if len(forward) > 0 {
+					svc.doRouteReq(ctx, forward, svc.self, target, nil, ch)
+				}
+				return ch
 			}
-			resCh := make(chan struct{}, len(forward))
-			if len(forward) > 0 {
-				ini.doRouteReq(ctx, forward, ini.self, target, nil, resCh)
+			ini := nodes[sc.initiator].svc
+			resCh := kick(sc.initiator)
+			var resCh2 chan struct{}
+			secondPending := sc.second >= 0
+			if secondPending {
+				x.Tag("two-initiators")
 			}
 			checked := map[*netsim.Msg]bool{}
 			checkNew := func(when string) {
@@ -637,7 +683,7 @@ func TestVerifC28(t *testing.T) {
 					sb.WriteString(c28Canon(m))
 					sb.WriteString(" ; ")
 				}
-				fmt.Fprintf(&sb, "signals=%d", len(resCh))
+				fmt.Fprintf(&sb, "signals=%d second-pending=%v signals2=%d", len(resCh), secondPending, len(resCh2))
 				return sb.String()
 			}
 			onPath := map[string]bool{stateKey(): true}
@@ -645,7 +691,7 @@ func TestVerifC28(t *testing.T) {
 			step := 0
 			for ; ; step++ {
 				fl := net.InFlight()
-				if len(fl) == 0 {
+				if len(fl) == 0 && !secondPending {
 					break
 				}
 				if step >= stepCap {
@@ -660,16 +706,33 @@ func TestVerifC28(t *testing.T) {
 						last = c
 					}
 				}
-				ci, dv := x.Choose(len(distinct)), 0
-				if !sc.noDrops {
+				arity := len(distinct)
+				if secondPending {
+					arity++ // one more transition: the second node starts its discovery now
+				}
+				ci, dv := x.Choose(arity), 0
+				if ci < len(distinct) && !sc.noDrops {
 					dv = x.Deviate(2)
 				}
 				curCh = append(curCh, ci, dv)
 				if n := len(curCh); !(same && len(prevCh) >= n && prevCh[n-2] == ci && prevCh[n-1] == dv && len(prevKeys) > step) {
 					same = false
 				}
-				m := distinct[ci]
-				if dv == 1 {
+				var m *netsim.Msg
+				if ci < len(distinct) {
+					m = distinct[ci]
+				}
+				if m == nil {
+					x.Logf("step %d: %c starts its own discovery for %c (%d messages in flight)", step, c28Letters[sc.second], c28Letters[sc.target], len(fl))
+					if len(fl) > 0 {
+						x.Tag("second-discovery-started-while-first-in-progress")
+					}
+					resCh2 = kick(sc.second)
+					secondPending = false
+					if !x.Replaying() {
+						checkNew(fmt.Sprintf("after step %d", step))
+					}
+				} else if dv == 1 {
 					x.Logf("step %d: DROP    %s", step, c28Canon(m))
 					net.Drop(m)
 					dropped = true
@@ -700,7 +763,7 @@ func TestVerifC28(t *testing.T) {
 					x.Fail("state-repeats-on-one-execution", "the same global state was reached twice in one execution (possible livelock): %s", key)
 				}
 				onPath[key] = true
-				if x.Seen(fmt.Sprintf("%s ttl%d a%d %c>%c :: %s", topo.name, maxTTL, sc.alpha, c28Letters[sc.initiator], c28Letters[sc.target], key), 0) {
+				if x.Seen(fmt.Sprintf("%s ttl%d a%d %c>%c second%d nodrops%v :: %s", topo.name, maxTTL, sc.alpha, c28Letters[sc.initiator], c28Letters[sc.target], sc.second, sc.noDrops, key), 0) {
 					return
 				}
 			}
@@ -732,6 +795,13 @@ func TestVerifC28(t *testing.T) {
 			}
 			if sc.target == c28X {
 				cls += "+unreachable-target"
+			}
+			if sc.second >= 0 {
+				if g2, e2 := nodes[sc.second].svc.GetRoute(ctx, target); e2 == nil && len(g2) > 0 {
+					cls += "+second-has-route"
+				} else {
+					cls += "+second-has-no-route"
+				}
 			}
 			x.Outcome(cls)
 		})
